@@ -231,6 +231,14 @@ theorem compile_eq_expand_fails : ¬ CompileEqExpand tcfg := by
     rw [h f390 _ s' he, h1] at h2
     exact absurd h2 (by decide)
 
+/-- module names and node names of the first three levels (for evaluated examples) -/
+def names (r : Except Err (List (String × List CNode))) : List String :=
+  match r with
+  | .ok ms => (ms.map fun (m, cs) => m :: (cs.map fun c => c.d.name) ++ ((cs.map (·.children)).flatten.map fun c => c.d.name) ++
+      (((cs.map (·.children)).flatten.map (·.children)).flatten.map fun c => c.d.name)).flatten
+  | .error _ => ["error"]
+
+
 /-! ## whole-tree invariants of every compiled tree -/
 
 /-- **config_inheritance.**  For EVERY module set of the DSL, every load order and every state of the repairs: in every
@@ -243,6 +251,17 @@ theorem config_inheritance (cfg : Cfg) (sch : Schema) (order : List String) (ms 
   obtain ⟨m, a, d, top, hraw, hx2⟩ := compileSet_mem cfg sch order ms h x hx
   rw [hx2]
   exact ((prune_cfg cfg.fixF392 1000).2 top (goodL_tree_cfg top (compileModuleRaw_good _ _ m a d top hraw))).1
+
+/-- non-vacuity: the chained / sibling augment witness compiles (two modules, four augments), so the invariant speaks
+about real trees; the config-false case is exercised by the next example -/
+example : isOk (compileSet tcfg f81 ["cwe", "cwd"]) = true := by decide +kernel
+example : names (compileSet tcfg
+      { mods := [{ name := "m", data := [.node { kind := .container, name := "st", config := some false } [N .leaf "l"]] }] } ["m"]) =
+    ["m", "st", "l"] ∧
+    isOk (compileSet tcfg
+      { mods := [{ name := "m", data := [.node { kind := .container, name := "st", config := some false }
+        [.node { kind := .leaf, name := "l", config := some true } []]] }] } ["m"]) = false := by
+  constructor <;> decide +kernel
 
 /-- **mandatory_parents, before the disabled nodes are removed** (every state of the repairs): in the tree `lys_compile`
 builds, a container is flagged mandatory iff it is a non-presence container one of whose children is flagged. -/
@@ -298,12 +317,6 @@ theorem mandatory_parents_fails :
 example : topFlags (compileSet { tcfg with fixF392 := true } f392 ["cwi"]) = (true, false, false, false) := by decide +kernel
 
 /-- with fixes/F390.diff the witness of `compile_eq_expand_fails` compiles, and to the same node list as its expansion -/
-def names (r : Except Err (List (String × List CNode))) : List String :=
-  match r with
-  | .ok ms => (ms.map fun (m, cs) => m :: (cs.map fun c => c.d.name) ++ ((cs.map (·.children)).flatten.map fun c => c.d.name) ++
-      (((cs.map (·.children)).flatten.map (·.children)).flatten.map fun c => c.d.name)).flatten
-  | .error _ => ["error"]
-
 theorem compile_eq_expand_witness_fixed :
     names (compileSet { tcfg with fixF390 := true } f390 ["cya", "cyb"]) = ["cya", "n10", "c", "x", "c", "cyb"] ∧
     (match expand { tcfg with fixF390 := true } f390 ["cya", "cyb"] with
